@@ -48,7 +48,7 @@ func TestCrowd(t *testing.T) {
 		Gen: func(t *rapid.T) CrowdScript {
 			return CrowdScript{Clients: rapid.IntRange(2, 12).Draw(t, "n"), NReq: rapid.IntRange(2, 10).Draw(t, "nreq"),
 				Names: rapid.SampledFrom([]int{1, 5, 20, 40}).Draw(t, "names"), Proto: "h2", Mixed: rapid.IntRange(0, 3).Draw(t, "mixed") == 0,
-				Broken: rapid.SampledFrom([]int{0, 0, 1, 2, 4}).Draw(t, "broken"), FaultAt: rapid.IntRange(4, 16).Draw(t, "faultAt"), Procs: rapid.SampledFrom([]int{0, 1, 1, 2}).Draw(t, "procs")}
+				Broken: rapid.SampledFrom([]int{0, 1, 2, 4, 4}).Draw(t, "broken"), FaultAt: rapid.IntRange(4, 10).Draw(t, "faultAt"), Procs: rapid.SampledFrom([]int{0, 1, 1, 1, 2}).Draw(t, "procs")}
 		},
 		Exec: func(s CrowdScript) *vstat.Violation {
 			var mu sync.Mutex
